@@ -18,7 +18,7 @@ try:
     demo = open(os.path.join(src, 'demo.py')).read()
     # the demo imports pymodbus from its author's worktree: point it at the vetting worktree
     import re
-    demo_here = re.sub(r"/tmp/sa/C\d\d", wt, demo)
+    demo_here = re.sub(r"/tmp/sa/C\d\d[a-z]?", wt, demo)
     open(os.path.join(wt, '_demo.py'), 'w').write(demo_here)
     r0 = sh('cd %s && timeout 120 /venv/bin/python _demo.py' % wt)
     a = sh('git -C %s apply %s' % (wt, os.path.join(src, 'patch.diff')))
